@@ -228,7 +228,7 @@ impl CryptoResolver for DefaultResolver {
     ex.text = '\n'.join(out)
     ex.dropped = [
         'R2: #[cfg(test)] modules, inner doc comments/attributes, impl Display/Debug/Error, impl PartialEq for Keypair (subtle)',
-        'R12: every FromStr::from_str, HandshakeChoice::parse_pattern_and_modifier, HandshakeChoice::is_fallback are #[verifier::external] (str APIs): NOT verified',
+        'R12: every FromStr::from_str, HandshakeChoice::parse_pattern_and_modifier, HandshakeChoice::is_fallback are #[verifier::external] in this unit; they are verified in the parser unit',
         'R17: in SymmetricState::initialize, handshake_name.len()/.as_bytes() go through two trusted one-line shims (vshim::str_len/str_bytes)',
         'R18: `x.ok_or(K::V)?` is rewritten to `x.ok_or(Error::from(K::V))?` (the From::from that `?` applies is made explicit; Verus does not specify non-identity `?` conversions)',
         'R5: supertraits CryptoRng+RngCore of trait Random dropped (foreign crate)',
@@ -302,6 +302,212 @@ def extract_wrappers(repo, root):
     ex.dropped = ['wrapper unit: only constants, error, types, params choices, resolvers/mod.rs, resolvers/default.rs are in this unit',
                   'third-party crates replaced by stub modules with ASSUMED contracts (spec/deps/*.rs)',
                   'P-256, XChaChaPoly, Kyber wrappers are compiled out (cfg) in the default configuration']
+    return ex
+
+
+# --------------------------------------------------------------------------- parser unit (R20-R24)
+
+PARSER_SHIM = """pub mod pshim {
+use vstd::prelude::*;
+verus! {
+// R20-R22 shims (trusted; each is the one std call it names)
+#[verifier::external_body] pub fn str_eq(a: &str, b: &str) -> (r: bool) ensures r == (a@ == b@) { a == b }
+#[verifier::external_body] pub fn starts_with(s: &str, p: &str) -> (r: bool) ensures r == crate::pspec::is_prefix(p@, s@) { s.starts_with(p) }
+#[verifier::external_body] pub struct VSplit<'a> { it: core::str::Split<'a, char> }
+pub uninterp spec fn vsplit_left(v: &VSplit<'_>) -> nat;
+impl<'a> Iterator for VSplit<'a> { type Item = &'a str;
+    #[verifier::external_body] fn next(&mut self) -> Option<&'a str> { self.it.next() } }
+impl<'a> vstd::std_specs::iter::IteratorSpecImpl for VSplit<'a> {
+    open spec fn obeys_prophetic_iter_laws(&self) -> bool { true }
+    #[verifier::prophetic] uninterp spec fn remaining(&self) -> Seq<&'a str>;
+    #[verifier::prophetic] open spec fn will_return_none(&self) -> bool { true }
+    open spec fn decrease(&self) -> Option<nat> { Some(vsplit_left(self)) }
+    open spec fn peek(&self, index: int) -> Option<&'a str> { None }
+}
+#[verifier::external_body] pub fn split<'a>(s: &'a str, c: char) -> (r: VSplit<'a>)
+    ensures crate::pspec::strs_view(vstd::std_specs::iter::IteratorSpec::remaining(&r)) == crate::pspec::split_on(s@, c)
+{ VSplit { it: s.split(c) } }
+}
+}
+"""
+
+
+def expand_pattern_enum(ex, pp):
+    """R7p: expand the pattern_enum! invocation with the macro's own transcriber text (a small macro_rules
+    interpreter for this macro's shape: one rule, `$name`, `$( ... ),*` repetitions over `$variant`, stringify!)."""
+    md = re.search(r'(?ms)^macro_rules! pattern_enum \{\n(.*?)^\}\n', pp)
+    inv = re.search(r'(?ms)^pattern_enum! \{\n\s*(\w+) \{(.*?)\}\n\}\n', pp)
+    if not md or not inv:
+        raise AnchorLost('R7p: pattern_enum! definition or invocation not found')
+    body = md.group(1)
+    k = body.find('}) => {')
+    if k < 0 or body.count('=> {') != 1 or '$($variant:ident),* $(,)*' not in body[:k]:
+        raise AnchorLost('R7p: pattern_enum! matcher changed shape')
+    tr = body[k + len('}) => {'):]
+    tr = tr[:tr.rindex('}')]
+    name = inv.group(1)
+    variants = [v.strip() for v in re.sub(r'//.*', '', inv.group(2)).replace('\n', ' ').split(',') if v.strip()]
+    out = []
+    i = 0
+    while True:
+        j = tr.find('$(', i)
+        if j < 0:
+            out.append(tr[i:])
+            break
+        out.append(tr[i:j])
+        depth, q = 1, j + 2
+        while depth:
+            c = tr[q]
+            depth += (c == '(') - (c == ')')
+            q += 1
+        inner = tr[j + 2:q - 1]
+        mm = re.match(r'\s*,\s*\*', tr[q:])
+        if not mm:
+            raise AnchorLost('R7p: unsupported repetition operator in pattern_enum! transcriber')
+        out.append(', '.join(inner.strip().replace('$variant', v) for v in variants))
+        i = q + mm.end()
+    t = ''.join(out).replace('$name', name)
+    if '$' in t:
+        raise AnchorLost('R7p: unexpanded macro variable left in pattern_enum! expansion')
+    t = re.sub(r'stringify!\((\w+)\)', r'"\1"', t)
+    t = re.sub(r'(?m)^\s*///.*\n', '', t)
+    t = re.sub(r'(?m)^        ', '', t)
+    ex.counts['R7p-variants'] = len(variants)
+    pp = pp.replace(inv.group(0), t + '\n').replace(md.group(0), '')
+    return pp, variants
+
+
+def _match_close(s, i):
+    """index just after the brace/paren/bracket group opening at s[i]; skips string and char literals and // comments"""
+    pairs = {'{': '}', '(': ')', '[': ']'}
+    stack = [pairs[s[i]]]
+    i += 1
+    while stack:
+        c = s[i]
+        if c == '"':
+            i += 1
+            while s[i] != '"':
+                i += 2 if s[i] == '\\' else 1
+        elif c == "'" and re.match(r"'(\\.|[^\\'])'", s[i:]):
+            i += re.match(r"'(\\.|[^\\'])'", s[i:]).end() - 1
+        elif s.startswith('//', i):
+            i = s.index('\n', i)
+        elif c in pairs:
+            stack.append(pairs[c])
+        elif c == stack[-1]:
+            stack.pop()
+        i += 1
+    return i
+
+
+def rewrite_str_matches(ex, s):
+    """R20: Verus has no string-literal patterns.  `match s { "lit" => E, x if G => E, _ => E }` in tail position of a
+    function becomes the equivalent chain `if str_eq(s, "lit") { return E; } ... ; E`.  cfg attributes on arms stay on
+    the generated statements."""
+    while True:
+        m = re.search(r'match s \{', s)
+        if not m:
+            return s
+        start, end = m.start(), _match_close(s, m.end() - 1)
+        # tail position: only closing braces of blocks follow until the end of the enclosing fn body
+        rest = s[end:]
+        if not re.match(r'\s*\}', rest):
+            raise AnchorLost('R20: match on &str not in tail position')
+        arms_src = s[m.end():end - 1]
+        i, stmts, tail = 0, [], None
+        while True:
+            mm = re.compile(r'\s*((?:#\[[^\]]*\]\s*)*)').match(arms_src, i)
+            attrs = mm.group(1).strip()
+            i = mm.end()
+            if i >= len(arms_src):
+                break
+            am = re.compile(r'("(?:[^"\\]|\\.)*"|_|s if )').match(arms_src, i)
+            if not am:
+                raise AnchorLost('R20: unsupported match arm pattern near %r' % arms_src[i:i + 40])
+            pat = am.group(1)
+            i = am.end()
+            guard = None
+            if pat == 's if ':
+                k = arms_src.index('=>', i)
+                guard = arms_src[i:k].strip()
+                i = k
+            am2 = re.compile(r'\s*=>\s*').match(arms_src, i)
+            if not am2:
+                raise AnchorLost('R20: `=>` expected')
+            i = am2.end()
+            # arm expression: a block, or up to the next top-level comma / end
+            if arms_src[i] == '{':
+                j = _match_close(arms_src, i)
+                expr = arms_src[i:j]
+            else:
+                j = i
+                while j < len(arms_src) and arms_src[j] != ',':
+                    if arms_src[j] in '({[':
+                        j = _match_close(arms_src, j)
+                    elif arms_src[j] == '"':
+                        j += 1
+                        while arms_src[j] != '"':
+                            j += 2 if arms_src[j] == '\\' else 1
+                        j += 1
+                    else:
+                        j += 1
+                expr = arms_src[i:j].strip()
+            i = j
+            cm = re.compile(r'\s*,').match(arms_src, i)
+            if cm:
+                i = cm.end()
+            ret = expr if expr.startswith('return ') else 'return %s' % expr
+            if pat == '_':
+                if attrs:
+                    raise AnchorLost('R20: cfg on the wildcard arm')
+                tail = ret + ';'
+                break
+            cond = guard if guard is not None else 'crate::pshim::str_eq(s, %s)' % pat
+            st = 'if %s { %s; }' % (cond, ret)
+            stmts.append(('%s { %s }' % (attrs, st)) if attrs else st)
+            ex.counts['R20-arms'] = ex.counts.get('R20-arms', 0) + 1
+        if tail is None:
+            raise AnchorLost('R20: no wildcard arm')
+        ex.counts['R20'] = ex.counts.get('R20', 0) + 1
+        s = s[:start] + '\n'.join(stmts) + '\n' + tail + s[end:]
+
+
+def extract_parser(repo):
+    """R19p: third verification unit - the protocol-name parser (params/mod.rs + params/patterns.rs up to the token tables)."""
+    ex = Extracted()
+
+    def rd(p):
+        return open(os.path.join(repo, 'src', p)).read()
+    prelude = PRELUDE.replace('//@SPEC-MODULES@', PARSER_SHIM + '//@SPEC-MODULES@')
+    out = [prelude]
+    out.append(_wrap('error', _pub_fields(ex, _clean(ex, rd('error.rs'))), 'error.rs'))
+    pm = _clean(ex, rd('params/mod.rs'))
+    pm = _sub(ex, 'R1-nest', r'mod patterns;\n', '', pm, expect=1)
+    pp = _clean(ex, rd('params/patterns.rs'))
+    pp, variants = expand_pattern_enum(ex, pp)
+    pp = _sub(ex, 'R12', r"(?m)^pub const SUPPORTED_HANDSHAKE_PATTERNS", '#[verifier::external]\npub const SUPPORTED_HANDSHAKE_PATTERNS', pp, expect=1)
+    # everything from the token tables on belongs to the core unit
+    pp = _sub(ex, 'R19p-cut', r'(?ms)^type Patterns = .*', '', pp, expect=1)
+    pp = _sub(ex, 'R3', r'(?ms)^macro_rules! message_vec \{.*?^\}\n', '', pp, expect=1)
+    both = []
+    for t in (pp, pm):
+        t = rewrite_str_matches(ex, t)
+        t = _sub(ex, 'R21', r'\b(\w+)\.split\((\'.\')\)', r'crate::pshim::split(\1, \2)', t)
+        t = _sub(ex, 'R22', r'\b(\w+)\.starts_with\(("[^"]*")\)', r'crate::pshim::starts_with(\1, \2)', t)
+        t = _sub(ex, 'R18', r'\.map_err\(\|_e\| (PatternProblem::\w+)\)\?', r'.map_err(|_e| crate::error::Error::from(\1))?', t)
+        both.append(_pub_fields(ex, t))
+    pp, pm = both
+    if ex.counts.get('R21', 0) != 3 or ex.counts.get('R22', 0) != 1:
+        raise AnchorLost('R21/R22: expected 3 split sites and 1 starts_with site, found %s/%s' % (ex.counts.get('R21'), ex.counts.get('R22')))
+    out.append('pub mod params {\nuse vstd::prelude::*;\npub mod patterns {\n//@@SRC params/patterns.rs\nuse vstd::prelude::*;\nverus! {\n%s\n} // verus!\n}\n//@@SRC params/mod.rs\nverus! {\n%s\n} // verus!\n}\n' % (pp, pm))
+    out.append('fn main() {}\n')
+    ex.text = '\n'.join(out)
+    ex.modules = [('error', 'error.rs'), ('params::patterns', 'params/patterns.rs'), ('params', 'params/mod.rs')]
+    ex.dropped = ['parser unit: only error.rs, params/mod.rs and params/patterns.rs up to (not including) the token tables are in this unit',
+                  'R7p: pattern_enum! is expanded with the macro\'s own transcriber text',
+                  'R20: `match s { "lit" => .. }` on &str becomes an if/return chain over the shim pshim::str_eq (Verus has no string-literal patterns)',
+                  'R21/R22: s.split(\'c\') and s.starts_with("lit") go through shims with ASSUMED contracts (std Pattern trait is unstable)',
+                  'the hfs variant of NoiseParams::from_str is compiled out (feature hfs off)']
     return ex
 
 
